@@ -222,7 +222,7 @@ def run(ctx):
         gp = prog.fn(GU + 'get_utxos_private', required=False)
         c09.inputs_survive_upgrades(ctx, 'R6', [x for x in (gp, fu, fb) if x is not None], 'get_utxos / get_balance', floor=10)
     from rules import c06
-    c06.run(SubCtx(ctx, {'R5': 'R5', 'R6': 'R5'}))
+    c06.run(SubCtx(ctx, {'R5': 'R5', 'R6': 'R5', 'R1': 'R5'}))  # R1: the token names the tip the first page reported (C05-9)
     ap = ctx.fn('R4', 'ic_btc_canister::address_utxoset::AddressUtxoSet::apply_block')
     if ap:
         names = sorted({c.short.rsplit('::', 1)[-1] for c in ap.calls() if not c.cleanup and c.matches(UB + 'GenericUnstableBlocks::get_*')})
